@@ -77,7 +77,7 @@ def _eval_shard(args):
     files = sorted(glob.glob(os.path.join(out, "cases_*.v")))
     with cf.ThreadPoolExecutor(max_workers=6) as ex:
         for f, (b, w) in zip(files, ex.map(core.coq_eval_cases, files)):
-            cs = json.load(open(f[:-2] + ".json"))
+            cs = json.load(open(f[:-2] + ".json")) or []    # (a harness that produced no case writes null)
             for c in cs:
                 if isinstance(c, dict):
                     c["_dir"] = out
@@ -147,7 +147,22 @@ def confirm(res, hx, corr, suspects, mode=None, unit=None):
     path = os.path.join(core.WORK, "%s-%s-confirm.json" % (res.prop, res.tier))
     json.dump(list(uniq.values()), open(path, "w"))
     cases, bad = explore(res, hx, corr, 0, res.seed, "confirm", replay=path, slow=5, mode=mode)
-    return bad
+    if not bad or hx == "conc":
+        return bad      # (bursts: what the scheduler did once it need not do again; one reproduction is what there is)
+    # what is still there is looked at once more, much more slowly: a machine that is busy with other work stretches every
+    # settling time, and a finding must not depend on that
+    again = {}
+    for c, code, step in bad:
+        u = unit(c) if unit else strip(c)
+        if u is None:
+            continue
+        if not unit:
+            u.pop("trace", None)
+        again.setdefault(json.dumps(u, sort_keys=True), u)
+    path2 = os.path.join(core.WORK, "%s-%s-confirm2.json" % (res.prop, res.tier))
+    json.dump(list(again.values()), open(path2, "w"))
+    cases2, bad2 = explore(res, hx, corr, 0, res.seed, "confirm2", replay=path2, slow=20, mode=mode)
+    return bad2
 
 
 def standard_flow(res, hx, corr, n, signature, describe, rule, nontrivial, key, stats, assumptions,
